@@ -107,59 +107,70 @@ CHECKS["C15"] = dict(
     design="DESIGN.md section 4 C15")
 
 CHECKS["C02"] = dict(
-    text=("Proof of the converter's naming and refusal kernel: Converter._generate_unique_name (loop invariant: result not in the set of "
-          "used names, set extended, counter monotone, for every set and candidate); nested-function parameters get names not used in any "
-          "enclosing scope; _translate_stmt dispatch (normal return only for supported statement kinds, return inside control flow and "
-          "unsupported statements raise with a source-positioned message, over a symbolic statement of every kind). Bounded stand-ins: "
-          "_translate_return_stmt (distinct output names, no graph input returned, <= 3 returned expressions with every aliasing) and "
-          "'every subgraph output is produced inside the subgraph' for If/Loop translation (<= 3 live variables)."),
+    text=("Proof of the converter's naming and refusal kernel: Converter._generate_unique_name (loop invariant: result not in the set of used names, set "
+          "extended, counter monotone, for every set and candidate); nested-function parameters get names not used in any enclosing scope; scope exit "
+          "imports the operator domains used inside; _translate_stmt dispatch (normal return only for supported statement kinds, return inside control "
+          "flow and unsupported statements raise with a source-positioned message, over a symbolic statement of every kind); IRFunction.append_node; "
+          "OnnxFunction._to_model_proto opset-import merge. Bounded stand-ins: _translate_return_stmt (distinct output names, no graph input returned, "
+          "outputs produced in this graph incl. values of an enclosing function), 'every subgraph output is produced inside the subgraph' and 'a local "
+          "unassigned on one path and unbound outside is refused' for If/Loop translation (<= 3 live variables), get_called_functions (call graphs over 3 "
+          "functions, two of them sharing a name across domains). One known finding: mixed standard-opset versions of caller and callee."),
     note="Assumed: onnx.checker itself; onnx_ir serde; _emit contract (one node, outputs in order); _translate_expr per op.",
     design="DESIGN.md section 4 C02 and 9")
 CHECKS["C03"] = dict(
-    text=("Kernel obligations of constant folding, on the real evaluators: cast/cast_like exactness, add (for operands of ANY length: records "
-          "only single-element sums, exact, keeps the non-negativity invariant of symbolic entries), FoldConstantsPass.call/visit plumbing; "
-          "bounded stand-ins with all values symbolic (ranks <= 2): reshape/expand -> Identity only if the target equals the runtime shape under "
-          "every binding, abs, gather, shape, size; process_node path contract (the reference evaluator is reached only behind every guard: "
-          "not Constant / control flow / non-deterministic, no graph-input operand, all operands constant, should_fold, blacklist, size gates)."),
+    text=("Kernel obligations of constant folding on the real code. Without a structure bound: FoldConstantsPass.process_node for nodes with ANY number "
+          "of inputs (input substitution by equal values only; the reference evaluator is reached only behind every guard — not Constant / control "
+          "flow / non-deterministic / an operator whose meaning predates the opset, no graph-input operand, every present operand constant, no "
+          "unresolved attribute reference, should_fold, blacklist, size gates — and gets every input at its own position), the partial evaluators "
+          "cast / cast_like / dropout / add and, for shapes and sym values of ANY rank or length, reshape / expand / abs / shape / _merge_shapes, "
+          "FoldConstantsPass.call / visit_graph / visit_node / replace_node plumbing, the reference evaluator wrapper, and the default rewrite rules "
+          "proved under C05/C09. Bounded stand-ins: concat, gather, size, squeeze, identity, if_op, split_to_sequence, _move_initializers_to_graph."),
     note=("LARGE assumed part: onnx_ir common passes (inline, DCE, CSE, lift, dedup, NameFix) preserve semantics; onnx.reference computes what the "
-          "runtime computes; the default rewrite rules (C05); floating point; the pass pipeline as a whole. Not under contract: concat, dropout, "
-          "if_op, sequence evaluators, identity's backward shape inference."),
+          "runtime computes; floating point; the pass pipeline as a whole (only its order / name-uniqueness effects are under contract, C04); "
+          "sequence evaluators not under contract."),
     design="DESIGN.md section 4 C03 and 9")
 CHECKS["C04"] = dict(
     text=("Proof of the C04 kernel: values that are graph inputs are never read as constants (_get_numpy_value, _get_bool_value, "
-          "OptimizerState.get_shape_value); _sym_value_can_replace_graph_output iff produced in this graph and not already an output; visit_graph "
-          "replaces an output only then and keeps its name, never writes graph inputs; _clear_unused_initializers drops an initializer iff unused "
-          "and not an output; NameFix iff modified; _update_opset_imports imports every used domain and raises on a version conflict; a new "
-          "initializer never replaces a different one of the same name. Exception freedom of gather / split_to_sequence / reshape / expand / "
-          "add / the Clip-Relu rules as bounded stand-ins."),
+          "OptimizerState.get_shape_value, _ir_utils.get_numpy_value); process_node never evaluates a node reading a graph input (any number of inputs); "
+          "_sym_value_can_replace_graph_output iff produced in this graph and not already an output; visit_graph replaces an output only then and keeps "
+          "its name, never writes graph inputs; _clear_unused_initializers drops an initializer iff unused and not an output; NameFix iff modified; "
+          "optimize_ir pass order keeps value names unique and outputs well-formed; _update_opset_imports imports every used domain and raises on a "
+          "version conflict; a new initializer never replaces a different one of the same name; the reference-evaluator wrapper never raises. "
+          "Exception freedom of the evaluators and rule checks as listed (bounded where the driver enumerates structures)."),
     note="Assumed: onnx_ir passes total and valid; onnx.checker; evaluators not listed above.",
     design="DESIGN.md section 4 C04 and 9")
 CHECKS["C05"] = dict(
-    text=("Rule-by-rule proof over the reals (element-level operator theory from the ONNX documentation) for the rules under contract: "
-          "FuseSuccessiveClip, FuseSuccessiveClipRelu, FuseSuccessiveReluClip (real check()/rewrite()/compute_clip_min_max/extract_min_max "
-          "executed symbolically for every present/absent combination of bounds; check succeeded ==> pattern = replacement for every x and "
-          "every bound); bounded stand-ins for the four Min/Max rules (1-2 constants per node, shapes in {(), (1,), (1,1), (3,)}: values proved, "
-          "shape preservation is a known finding) and, under C09, _remove_expand_before_binary_op. Pattern-constant tolerances of _no_op are "
-          "ground obligations (known findings). All other rules are NOT under contract (listed in the evidence)."),
-    note=("Assumed: operator theory T1 (validated against onnx.reference natively by the replays, not proved); floats as reals; C05 is decided "
-          "for the listed rules only — _basic_rules, _collapse_slices, _fuse_pad_into_conv, _fuse_batchnorm, matmul/gemm rules, rules.fusion, "
-          "_fuse_hardswish are not covered."),
+    text=("Rule-by-rule proofs: the real check()/rewrite() (and helpers) of each rule under contract are executed symbolically; check succeeded ==> pattern "
+          "and replacement agree for every input, every constant and every binding of symbolic dims, in the operator theory transcribed from the ONNX "
+          "documentation (reals for arithmetic, bit-precise z3 FP/BV for casts, linear integer shape theory). Without a structure bound: Clip/Relu fusions, "
+          "CastCast / CastIdentity, Cast(ConstantOfShape), UnsqueezeUnsqueeze, HardSwish-from-HardSigmoid, remove-optional-bias (4 rules), BatchNorm "
+          "into Conv / Gemm, NormalizePadFormat (auto_pad with dilations), TransposeTranspose (permutations of ANY length), ExpandIdentity / SqueezeReshape / "
+          "collapse_slice (ANY rank), expand-before-binary-op (ANY rank, under C09), pattern-literal matching and Constant.clone tolerances, "
+          "_ir_utils.same_shape. Bounded stand-ins (small ranks / operand counts, values symbolic): Min/Max-to-Clip (4 rules), MatMul+Add->Gemm (4 rules), "
+          "reshape-matmul-reshape, Conv/affine fusions, FuseConvPad, Flatten2Reshape, ReshapeReshape, MaterializeReshapeShape, ScatterAll*, "
+          "TransposeIdentity. Known findings: pattern-literal tolerances, HardSwish tolerance, Min/Max shape cases."),
+    note=("Assumed: the operator theory (validated against onnx.reference / onnxruntime natively by the replays, not proved); floats as reals unless "
+          "stated; rules.fusion (_layer_norm, _rms_normalization, _rotary_embedding, _gqa) and _fuse_hardswish's other rules replace subgraphs by compound "
+          "operators whose only definition is a function body or an ORT kernel: NOT covered (rules_not_under_contract in the evidence)."),
     design="DESIGN.md section 4 C05 and 9")
 CHECKS["C06"] = dict(
-    text=("Local contracts of the matcher: _match_constant (scalar): match iff a known scalar constant within the stated tolerance, for all "
-          "reals (proof). Bounded stand-ins with symbolic flags/names: _valid_to_replace (iff no external use / graph output of an intermediate "
-          "value), MatchResult bind/bind_value/bind_node/lookup_node/enter/abandon/merge (abandon restores exactly, merge loses nothing, "
-          "conflicts detected across partial matches), NodePattern.matches (iff op, domain and attribute patterns agree). The global "
-          "soundness+completeness of the recursive matcher follows on paper only (not machine-checked)."),
+    text=("Local contracts of the matcher. Without a structure bound: _match_constant (match iff a known, non-overridable scalar constant within the stated "
+          "tolerance, all reals), _match_node for node patterns and nodes with ANY number of inputs / outputs (arity, pattern input i against node input i "
+          "or None, outputs bound by index, a False result is a recorded failure), _match_node_output, _match_single_output_node, _valid_to_replace for "
+          "matches of ANY size (True only without outside uses / graph outputs of intermediate values, False only with a witness), pattern clone "
+          "(Constant / Var / NodePattern / Or patterns keep every field). Bounded stand-ins with symbolic flags / names: MatchResult bind / bind_value / "
+          "bind_node / lookup_node / enter / abandon / merge, NodePattern.matches, _match_value, _multi_match, match, OrValue. The global soundness + "
+          "completeness of the recursive matcher follows on paper only (not machine-checked)."),
     note="Assumed: math.isclose semantics over the reals; onnx_ir Value.uses/is_graph_output; the induction over patterns.",
     design="DESIGN.md section 4 C06 and 9")
 CHECKS["C07"] = dict(
-    text=("Path contracts proved on _rewrite_rule.py: RewriteRule.try_rewrite (arity check, opset imports of container and main graph, matcher "
-          "told whether nodes are removed), _update_opset_imports (symbolic versions), RewriteRuleSet.apply_to_model (original functions only, "
-          "DCE iff a rule keeps nodes, NameFix iff count > 0); bounded stand-in for _apply_to_graph_or_function (2 nodes, 2 rules, subgraph "
-          "attribute, graph vs function container): one replace_nodes_and_values call per firing with exactly (match.nodes | [], new nodes, "
-          "matched outputs, new outputs), count, initializer registration, rule-name tag, visitors."),
-    note="Assumed: ir.convenience.replace_nodes_and_values / replace_all_uses_with do what their docstrings say (onnx_ir); as_function extraction (_copy_for_function) not under contract.",
+    text=("Path contracts proved on _rewrite_rule.py: RewriteRule.try_rewrite (arity check, opset imports of container and main graph, matcher told "
+          "whether nodes are removed), _update_opset_imports (symbolic versions), RewriteRuleSet.apply_to_model (original functions only, DCE iff a rule "
+          "keeps nodes, NameFix iff count > 0), _get_new_overload (fresh for every function table), commute, _valid_to_replace (any match size); "
+          "_apply_to_graph_or_function with every firing pattern of 2 rules on 2 nodes (subgraph attribute, graph vs function container, 0-2 new "
+          "initializers incl. clashing names): one replace_nodes_and_values call per firing with exactly (match.nodes | [], new nodes, matched outputs, "
+          "new outputs), count, initializer registration, rule-name tag, visitors, as_function branch; bounded: _copy_for_function."),
+    note="Assumed: ir.convenience.replace_nodes_and_values / replace_all_uses_with do what their docstrings say (onnx_ir); metadata merger.",
     design="DESIGN.md section 4 C07 and 9")
 CHECKS["C09"] = dict(
     text=("Proof, for every binding of the symbolic dims, EVERY RANK and every dim kind (static / named / unknown): _check_expand_removable "
@@ -186,11 +197,13 @@ CHECKS["C13"] = dict(
           "outside this family (used only in the native replays). _translate_graph_body's per-node statement order is an assumed contract of the loop protocol."),
     design="DESIGN.md sections 4 C13, 9 and 13")
 CHECKS["C14"] = dict(
-    text=("Proof of the state obligations: pattern_builder restores the module-global builder on normal and exceptional exit (exception "
-          "injected at the yield); Converter.__init__ copies the caller's globals; FoldConstantsPass.call resets per-run state; every "
-          "RewriteRuleClassBase subclass in rules.common/rules.fusion reads in rewrite() only fields that check() assigns on every successful "
-          "path (must-assign dataflow over the real source, following super().check). Bounded stand-in: If/Loop translation emits the same "
-          "structure for every set-iteration order (<= 3 live variables, every order of every set object)."),
+    text=("Proof of the state obligations: pattern_builder restores the module-global builder on normal and exceptional exit (exception injected at the "
+          "yield); Converter.__init__ copies the caller's globals, script-time constants are snapshots; FoldConstantsPass.call resets per-run state; the "
+          "module-level reference evaluator carries no history (symbolic opset versions); every RewriteRuleClassBase subclass in rules.common/rules.fusion "
+          "reads in rewrite() only fields that check() assigns on every successful path (must-assign dataflow over the real source, following "
+          "super().check); to_model_proto does not modify the function and later calls do not inherit earlier options; GraphPattern output order and the "
+          "folding provenance text are canonical under every set-iteration order. Bounded stand-in: If/Loop translation emits the same structure for "
+          "every set-iteration order (<= 3 live variables, every order of every set object)."),
     note="Assumed: protobuf serialisation determinism; onnx_ir passes' own determinism; eager mode reading live module globals and numpy-array globals mutated in place are outside.",
     design="DESIGN.md section 4 C14 and 9")
 CHECKS["C18"] = dict(
@@ -210,12 +223,37 @@ NOT_APPLICABLE = {
 ALL = [f"C{i:02d}" for i in range(1, 21)]
 
 
+def coverage_lists(pid):
+    """Functions of /repo under contract for this property, derived from the scenario tables the check actually runs:
+    (verified without a structure bound, only in bounded stand-ins, only by exhaustive evaluation of ground obligations)."""
+    import importlib
+    import sys
+    sys.path.insert(0, VERIF)
+    pm = importlib.import_module(f"props.{pid}")
+    ded, bnd, ev = set(), set(), set()
+    for m in pm.MODULES:
+        m, _, sel = m.partition(":")
+        mod = importlib.import_module(m)
+        for sc in mod.SCENARIOS:
+            if sel and sel not in sc.name:
+                continue
+            tgt = ded if sc.kind == "deductive" else bnd if sc.kind == "bounded" else ev
+            for _rel, qn in sc.functions:
+                tgt.add(qn)
+    return sorted(ded), sorted(bnd - ded), sorted(ev - ded - bnd)
+
+
 def main():
     checks = []
     for pid in ALL:
         c = CHECKS.get(pid)
         if not c:
             continue
+        ded, bnd, ev = coverage_lists(pid)
+        c = dict(c)
+        c["text"] = (c["text"] + " || Functions under contract as of this build (derived from the scenario tables of the check) - verified without a "
+                     "structure bound: " + (", ".join(ded) or "none") + ". Only in bounded stand-ins (never counted as proved): " + (", ".join(bnd) or "none")
+                     + ". Only by exhaustive evaluation of ground obligations on the real objects: " + (", ".join(ev) or "none") + ".")
         checks.append({
             "property_id": pid,
             "quick_cmd": f"./vcheck {pid} --tier quick",
